@@ -52,7 +52,7 @@ PROPS = {
                U("c08_chance_reach", ["C08.V.chance_reach.product_along_path"]),
                U("c09_generic_single", ["C09.V.first_below (the early stop the property speaks of)"]),
                U("c09_generic_multi", ["C09.V.first_below"]),
-               U("c06_threshold_player_step", ["C06.V.thread_threshold.frontier_reach"])],
+               U("c06_threshold_player_step", ["C06.V.thread_threshold.frontier_reach", "C06.V.thread_threshold.frontier_reach_chance"])],
         kani_functions=["src/solve/data.rs :: impl RegretParams / fn cum_regret", "src/lib.rs :: impl RegretBound / fn new, player_regret_bound, regret_bound"],
         trusted_base=["CFR regret theorem (Zinkevich et al. 2007, Thm 3-4)"],
         not_decided=["the inequality itself", "sum of per-infoset bounds per player (iterator chain inside the solver loops)"],
@@ -86,7 +86,7 @@ PROPS = {
         level_note="Schedule independence is NOT decided (no thread reasoning in Verus/Kani). thread_threshold, par_drain/par_extend are "
                    "assumed contracts restating the anchor / rayon documentation.",
         verus=[U("c06_generic_multi_fresh", ["C06.V.solve_generic_multi.workspace_fresh"]),
-               U("c06_threshold_player_step", ["C06.V.thread_threshold.frontier_reach"]),
+               U("c06_threshold_player_step", ["C06.V.thread_threshold.frontier_reach", "C06.V.thread_threshold.frontier_reach_chance"]),
                U("c06_recurse_multi_cache", ["C06.V.recurse_multi.cache_hit", "C06.V.recurse_multi.miss_traverses", "C06.V.cached_payoff.unit_is_empty"]),
                U("c08_recurse_single_player_arm", ["C08.V.recurse_single.player_arm (one visit of a decision node: the single-threaded statement)"]),
                U("c08_recurse_multi_player_arm", ["C08.V.recurse_multi.player_arm (the same visit as a sequence of atomic events)"]),
@@ -98,7 +98,7 @@ PROPS = {
         
         trusted_base=["assumed contracts on thread_threshold and rayon (prelude/workspace.rs)"],
         not_decided=["races between worker tasks, atomic add ordering, equality up to summation order",
-                     "thread_threshold's chance-node arm (Vec::extend over a Map iterator)"],
+                     "thread_threshold's loop as a whole (queue/work swap discipline, termination at the target size): only its per-node steps are under contract"],
     ),
     "C07": dict(
         level="proof",
